@@ -20,7 +20,7 @@ class Group:
     def __init__(self, name, unit, harness, entry=None, enforce=None, replace=(), loop_contracts=False, unwind=None,
                  backend='sat', timeout=600, kind='unbounded', bound=None, clause='', defines=(), checks=None,
                  expect='pass', replay=None, tier='quick', extra=(), canary=True, unwindset=(), object_bits=None,
-                 inputs=(), nondet_static=False, no_standard_checks=False, unwind_by=None, unwind_claims=()):
+                 inputs=(), nondet_static=False, no_standard_checks=False, unwind_by=None, unwind_claims=(), skeleton=False):
         self.name, self.unit, self.harness = name, unit, harness
         self.entry = entry or 'harness'
         self.enforce, self.replace = enforce, list(replace)
@@ -40,6 +40,9 @@ class Group:
         # unwinding assertion there is non-termination within the type's range, i.e. a violation.  Any other failing
         # unwinding assertion only says that the harness bound was too small and is reported as undecided.
         self.unwind_claims = list(unwind_claims)
+        # E3: the group runs on a control-flow skeleton (over-approximation): a failed obligation is reported as a violation
+        # only when the native replay reproduces it on the real code, otherwise as undecided
+        self.skeleton = skeleton
 
 
 class Result:
@@ -68,17 +71,39 @@ def sh(cmd, timeout=None, cwd=None, mem=True):
         return 124, (e.stdout or b'').decode(errors='replace') + '\nTIMEOUT'
 
 
-def race(base, backends, timeout):
-    """run `base + BACKENDS[be]` for every back end concurrently; yield (backend, rc, output, seconds) as they finish;
-    when the consumer stops iterating the remaining processes are killed"""
+ACTIVE = set()     # live solver processes (each in its own session); killed when the driver itself is terminated
+
+
+def _terminate_all(signum=None, frame=None):
+    for p in list(ACTIVE):
+        kill_tree(p)
+    if signum is not None:
+        os._exit(2)
+
+
+def install_signal_handlers():
+    import signal, atexit
+    signal.signal(signal.SIGTERM, _terminate_all)
+    signal.signal(signal.SIGINT, _terminate_all)
+    atexit.register(_terminate_all)
+
+
+def race(base, backends, timeout, extra_jobs=()):
+    """run `base + BACKENDS[be]` for every back end (plus extra (tag, cmd) jobs) concurrently; yield (tag, rc, output, seconds)
+    as they finish; when the consumer stops iterating the remaining processes are killed"""
     import tempfile, signal
     procs = []
+    scripts = []
     pre = f'ulimit -v {MEM_KB}; '
     t0 = time.time()
-    for be in backends:
+    for be, argv in [(be, base + BACKENDS[be]) for be in backends] + list(extra_jobs):
         f = tempfile.TemporaryFile()
-        cmd = ['bash', '-c', pre + 'exec ' + ' '.join(shquote(c) for c in base + BACKENDS[be])]
-        procs.append([be, subprocess.Popen(cmd, stdout=f, stderr=subprocess.STDOUT, start_new_session=True), f])
+        script = tempfile.NamedTemporaryFile('w', suffix='.sh', delete=False)   # a single argv string is limited to 128 KiB
+        script.write(pre + 'exec ' + ' '.join(shquote(c) for c in argv) + '\n')
+        script.close()
+        scripts.append(script.name)
+        procs.append([be, subprocess.Popen(['bash', script.name], stdout=f, stderr=subprocess.STDOUT, start_new_session=True), f])
+        ACTIVE.add(procs[-1][1])
     try:
         pending = list(procs)
         while pending:
@@ -101,7 +126,13 @@ def race(base, backends, timeout):
         for be, p, f in procs:
             if p.poll() is None:
                 kill_tree(p)
+            ACTIVE.discard(p)
             f.close()
+        for sc in scripts:
+            try:
+                os.unlink(sc)
+            except OSError:
+                pass
 
 
 def kill_tree(p):
@@ -131,7 +162,12 @@ def lower_unit(unit):
     spec = os.path.join(ROOT, 'contracts', unit + '.spec')
     out_c = os.path.join(BUILD, unit + '.c')
     out_m = os.path.join(BUILD, unit + '.meta.json')
-    u = cxx2c.lower(spec, out_c, out_m)
+    skel = os.path.join(ROOT, 'contracts', unit + '.skel')
+    if os.path.exists(skel):
+        import cxxskel
+        cxxskel.lower(skel, out_c, out_m)     # level E3: control-flow skeleton
+    else:
+        u = cxx2c.lower(spec, out_c, out_m)
     meta = json.load(open(out_m))
     _lowered[unit] = meta
     return meta
@@ -273,7 +309,44 @@ def run_group(g, workdir):
     last = None
     # the back ends of a portfolio run concurrently; results are consumed in the order they finish and the first one that
     # reaches a verdict decides (the others are killed)
-    for be, rc, out, dt in race(base, backends, g.timeout):
+    # "falsifier": the same program, every property except the vacuity canary, stopping at the FIRST failing property.
+    # A changed function often makes the remaining (true) properties hard to prove; the verdict "this obligation fails,
+    # here is the trace" must not wait for that.  Its SUCCESS is ignored (the full runs decide), its FAILURE decides.
+    extra = []
+    if g.expect != 'fail_only_full':
+        rc0, out0 = sh(base + ['--show-properties', '--json-ui'], timeout=300)
+        names = []
+        try:
+            for item in json.loads(out0[out0.index('['):]):
+                for pr in item.get('properties', []) if isinstance(item, dict) else []:
+                    if 'canary' not in (pr.get('description') or ''):
+                        names.append(pr['name'])
+        except Exception:
+            names = []
+        if names and len(names) < 6000:
+            fcmd = base + BACKENDS[backends[0] if backends[0] in ('sat', 'cadical') else 'sat'] + ['--stop-on-fail', '--trace', '--json-ui']
+            for nm in names:
+                fcmd += ['--property', nm]
+            extra.append(('falsifier', fcmd))
+    for be, rc, out, dt in race(base, backends, g.timeout, extra):
+        if be == 'falsifier':
+            fr = parse_falsifier(out, g)
+            if fr is None:
+                continue          # no failure found (or no verdict): the full runs decide
+            r.solver_s += dt
+            r.backend = 'falsifier(' + (backends[0] if backends[0] in ('sat', 'cadical') else 'sat') + ')'
+            r.props = fr['props']
+            real = fr['failed']
+            def is_unwind(p):
+                return '.unwind.' in (p[0] or '') or 'unwinding assertion' in (p[1] or '')
+            if any(is_unwind(p) and not any(re.match(c, p[0] or '') for c in g.unwind_claims) for p in real) or \
+                    any('MODEL-BOUND' in (p[1] or '') for p in real):
+                continue          # not a verdict about the code: let the full run classify it
+            r.failed = real
+            r.status = 'fail'
+            r.trace_inputs = fr['trace']
+            r.detail = 'first failing obligation found by the stop-on-fail run; the remaining obligations were not decided'
+            break
         r.solver_s += dt
         r.backend = be
         r.log += f'\n--- backend {be} rc={rc} {dt:.1f}s\n'
@@ -318,6 +391,37 @@ def run_group(g, workdir):
         r.detail = last or 'no back end decided'
     r.wall_s = time.time() - t0
     return r
+
+
+def parse_falsifier(out, g):
+    """result of the --stop-on-fail --json-ui run: None unless a property FAILED; else its name/description and trace inputs"""
+    try:
+        data = json.loads(out[out.index('['):])
+    except Exception:
+        return None
+    for item in data:
+        if not isinstance(item, dict):
+            continue
+        cands = list(item.get('result', []))
+        if 'property' in item and 'status' in item:
+            cands.append(item)       # --stop-on-fail prints the failed property as a top-level object
+        for res in cands:
+            if str(res.get('status', '')).upper() in ('FAILURE', 'FAILED'):
+                loc = res.get('sourceLocation') or {}
+                line = loc.get('line')
+                vals = {}
+                for step in res.get('trace', []):
+                    if step.get('stepType') == 'assignment' and not step.get('hidden'):
+                        lhs = step.get('lhs', '')
+                        fn = (step.get('sourceLocation') or {}).get('function', '')
+                        if (fn == g.entry or lhs.startswith('in_') or lhs.startswith('__g')) and '__dfcc' not in lhs \
+                                and not lhs.startswith('__g_ntop') and not lhs.startswith('return_value'):
+                            flatten(lhs, step.get('value', {}), vals)
+                    if step.get('stepType') == 'failure' and not line:
+                        line = (step.get('sourceLocation') or {}).get('line')
+                p = (res.get('property'), res.get('description'), 'FAILURE', line)
+                return {'props': [p], 'failed': [p], 'trace': {'property': res.get('property'), 'assignments': vals}}
+    return None
 
 
 PROP_RE = re.compile(r'^\[([^\]]+)\] (?:line (\d+) )?(.*): (SUCCESS|FAILURE|UNKNOWN|ERROR)$', re.M)
